@@ -14,11 +14,13 @@ import (
 	"encoding/json"
 	"flag"
 	"fmt"
+	"goa.design/goa/v3/expr"
 	"io/fs"
 	"os"
 	"path/filepath"
 	"runtime/debug"
 	"sort"
+	"strconv"
 	"strings"
 
 	"goa.design/goa/v3/codegen/generator"
@@ -152,6 +154,47 @@ func main() {
 			design.AddMeta(d, lp.NewRng(*seed*7919+uint64(*index)+17), *metaBoth)
 		}
 		b, _ := json.Marshal(d)
+		fmt.Println(string(b))
+	case "schemes":
+		// the security schemes of every transport endpoint after evaluation: where each transport takes the credential from, and
+		// whether two endpoints share a scheme expression (each endpoint owns its copies: what one finalizes is not seen by another)
+		raw, err := os.ReadFile(*designFile)
+		if err != nil {
+			fatal(err)
+		}
+		var d design.Design
+		if err := json.Unmarshal(raw, &d); err != nil {
+			fatal(err)
+		}
+		if err := design.Run(&d); err != nil {
+			fmt.Println(`{"error":` + strconv.Quote(err.Error()) + `}`)
+			return
+		}
+		type row struct {
+			Transport, Service, Method, Scheme, Kind, In, Name, Ptr string
+		}
+		var rows []row
+		for _, hs := range expr.Root.API.HTTP.Services {
+			for _, e := range hs.HTTPEndpoints {
+				for _, rq := range e.Requirements {
+					for _, sc := range rq.Schemes {
+						rows = append(rows, row{"http", hs.Name(), e.Name(), sc.SchemeName, sc.Kind.String(), sc.In, sc.Name, fmt.Sprintf("%p", sc)})
+					}
+				}
+			}
+		}
+		if expr.Root.API.GRPC != nil {
+			for _, gs := range expr.Root.API.GRPC.Services {
+				for _, e := range gs.GRPCEndpoints {
+					for _, rq := range e.Requirements {
+						for _, sc := range rq.Schemes {
+							rows = append(rows, row{"grpc", gs.Name(), e.Name(), sc.SchemeName, sc.Kind.String(), sc.In, sc.Name, fmt.Sprintf("%p", sc)})
+						}
+					}
+				}
+			}
+		}
+		b, _ := json.Marshal(map[string]any{"schemes": rows})
 		fmt.Println(string(b))
 	case "run":
 		raw, err := os.ReadFile(*designFile)
